@@ -21,7 +21,12 @@ META = {
              "the extracted conversion tables incl. integer width/sign of every hop, omitempty, overwrite (convert_roundtrip, body_roundtrip, "
              "Values.holds_of_good) and the closed witnesses. TESTED end to end on every run (real SDK + gRPC + in-process server, compared with "
              "the model line by line): 25 Go field types x boundary/random values x {catalog value, map-body field, profile field} x "
-             "{omitempty on/off}, overwrite of a stored value, tag interference on save/read. PARAMETERS (assumed lawful on non-empty "
+             "{omitempty on/off}, overwrite of a stored value, tag interference on save/read; the whole value matrix a second time on a "
+             "sanctuary registered with EncodingMsgPack (ops mval/mupd/mpupd; model: the codec parameter `lib` = identity, gob = gobLib); the "
+             "read LOOPS CatalogReadMany / ReadBatch / ReadManyStream / ProfileReadBatch on two records with different optional fields "
+             "(op many: every record handed to the iterator equals the saved one, also after the loop). NOT covered: one field at a time is "
+             "varied (the other fields of the probe models are fixed), Subscribe / Shift / PatchExpired iterators, metadata VALUES other than "
+             "the fixed probe times and strings. PARAMETERS (assumed lawful on non-empty "
              "containers, tested): gob / msgpack codecs, msgpack of scalars inside the map body, IEEE float conversions, protobuf "
              "transport. Arrays and non-UTF-8 strings are refused with an explicit error and are outside the claim. Trusted: Lean kernel "
              "(propext, Classical.choice, Quot.sound); extract/c22.go, extract/c22val.go; harness/c22*.go + sdk verif_export.go. The "
@@ -118,6 +123,15 @@ def val_finding(f, line):
 def oracle(rep):
     for op, line in zip(rep["ops"], rep["impl"]):
         f = op.split(" ")
+        if line.startswith("timeout"):
+            continue   # the rig did not answer in time (load): common.py re-runs such a case alone with a larger budget
+        if f[0] == "many":
+            if line not in ("rm=ok rb=ok rs=ok", "pb=ok"):
+                return (None, "the records handed to the iterator of a multi-record read are not the records saved (`%s` -> %s: "
+                              "diff = wrong during the loop, alias = right during the loop but changed afterwards, NofM = records missing)" % (op, line))
+            continue
+        if f[0] in ("mval", "mupd", "mpupd"):
+            f = [f[0][1:]] + f[1:]   # the same op on a msgpack-encoded swamp: the same Spec
         if f[0] == "shape":
             if line != "same":
                 fid = {"embedded": "C22-embedded-fields-dropped", "embedded-pub": "C22-embedded-fields-dropped", "prof-embedded": "C22-embedded-fields-dropped",
